@@ -32,12 +32,14 @@ struct Shared {
     std::atomic<uint32_t> exec_seq[MAXID];
     std::atomic<uint32_t> seq{1};
     std::atomic<uint32_t> seen_len[MAXID];
+    std::atomic<const void*> obj_addr[MAXID];  // address of the object the functor was applied to
     Shared()
     {
         for (int i = 0; i < MAXID; i++) {
             exec_count[i].store(0);
             exec_seq[i].store(0);
             seen_len[i].store(0);
+            obj_addr[i].store(nullptr);
         }
     }
 };
@@ -74,8 +76,8 @@ static void one_round(long r, const char* mname)
         std::vector<Act> sc;
         int n = static_cast<int>(rng.range(1, 5));
         for (int i = 0; i < n && id < 26; i++) {
-            static const char kinds[] = {'D', 'D', 'A', 'V'};
-            sc.push_back(Act{kinds[rng.below(4)], 0, static_cast<int>(rng.below(3)), rng.chance(12), id++, two ? static_cast<int>(rng.below(3)) : 0});
+            static const char kinds[] = {'D', 'D', 'A', 'V', 'Q'};  // Q: modify_async with a functor returning a reference into the object
+            sc.push_back(Act{kinds[rng.below(5)], 0, static_cast<int>(rng.below(3)), rng.chance(12), id++, two ? static_cast<int>(rng.below(3)) : 0});
             if (rng.chance(15)) sc.push_back(Act{'R', static_cast<int>(rng.below(4)), static_cast<int>(rng.below(3)), false, 0});
         }
         scripts.push_back(sc);
@@ -132,6 +134,7 @@ static void one_round(long r, const char* mname)
     std::vector<SubRec> subs[vrf::MAXT];
     std::vector<std::pair<uint32_t, std::future<int>>> futs_i[vrf::MAXT];
     std::vector<std::pair<uint32_t, std::future<void>>> futs_v[vrf::MAXT];
+    std::vector<std::pair<uint32_t, std::future<Cell&>>> futs_r[vrf::MAXT];
     for (size_t t = 0; t < scripts.size(); t++) {
         R.spawn([&, t] {
             Shared* shp = &sh;
@@ -179,6 +182,15 @@ static void one_round(long r, const char* mname)
                     } else if (a.kind == 'A') {
                         auto fn = [fid, thr, hold, shp, hook](Cell& c) { return functor_body(c, fid, thr, hold, shp, hook.get()); };
                         futs_i[t].emplace_back(fid, (fid % 2) ? dg->modify_async(vrf::one_shot(fn)) : dg->modify_async(fn));
+                    } else if (a.kind == 'Q') {
+                        // the result is a reference: the future must refer to what the function returned (the object inside
+                        // the wrapper), on the direct and on the queued path alike
+                        auto fn = [fid, thr, hold, shp, hook](Cell& c) -> Cell& {
+                            shp->obj_addr[fid].store(&c, std::memory_order_relaxed);
+                            (void)functor_body(c, fid, thr, hold, shp, hook.get());
+                            return c;
+                        };
+                        futs_r[t].emplace_back(fid, dg->modify_async(fn));
                     } else {
                         auto fn = [fid, thr, hold, shp, hook](Cell& c) { (void)functor_body(c, fid, thr, hold, shp, hook.get()); };
                         futs_v[t].emplace_back(fid, (fid % 2) ? dg->modify_async(vrf::one_shot(fn)) : dg->modify_async(fn));
@@ -282,6 +294,24 @@ static void one_round(long r, const char* mname)
                 int v = f.second.get();
                 if (thr) vrf::violation("oracle:future_value_instead_of_exception", "{}");
                 if (v != static_cast<int>(sh.seen_len[f.first].load())) vrf::violation("oracle:future_holds_wrong_result", "{\"id\":" + std::to_string(f.first) + "}");
+            }
+            catch (const Boom& b) {
+                if (!thr || b.id != f.first) vrf::violation("oracle:future_holds_wrong_exception", "{}");
+            }
+            catch (const std::future_error& e) {
+                vrf::violation("oracle:future_error", vrf::jstr(e.what()));
+            }
+        }
+        for (auto& f : futs_r[t]) {
+            if (!vrf::is_ready(f.second)) vrf::violation("oracle:async_future_not_ready_after_drain", "{\"id\":" + std::to_string(f.first) + "}");
+            bool thr = false;
+            for (auto* s : all)
+                if (s->id == f.first) thr = s->throws;
+            try {
+                Cell& got = f.second.get();
+                if (thr) vrf::violation("oracle:future_value_instead_of_exception", "{}");
+                if (static_cast<const void*>(&got) != sh.obj_addr[f.first].load())
+                    vrf::violation("oracle:future_does_not_refer_to_what_the_function_returned", "{\"id\":" + std::to_string(f.first) + "}");
             }
             catch (const Boom& b) {
                 if (!thr || b.id != f.first) vrf::violation("oracle:future_holds_wrong_exception", "{}");
